@@ -4,6 +4,7 @@ package c01
 import (
 	"fmt"
 
+	"github.com/nspcc-dev/neo-go/pkg/core/native/noderoles"
 	"github.com/nspcc-dev/neo-go/pkg/core/transaction"
 	"github.com/nspcc-dev/neo-go/pkg/io"
 	"pgregory.net/rapid"
@@ -177,6 +178,31 @@ func genCase(t *rapid.T) Case {
 		use(i+1, 1)
 		set(j, rapid.SampledFrom([]int64{1, 77777, 20000000}).Draw(t, "wl_fee2"), 2)
 		use(j+1, 3)
+	}
+	// Oracle storyline (requests pending across flushes and restarts, answered later; the designated oracle nodes may
+	// change in between; the callback stores the result, or throws after doing so).
+	if n >= 3 && rapid.IntRange(0, 3).Draw(t, "orstory") == 0 {
+		nonce := rapid.Uint32().Draw(t, "or_nonce")
+		i := rapid.IntRange(0, n-2).Draw(t, "or_at")
+		put := func(at int, a ck.Action) {
+			a.Nonce = nonce
+			nonce++
+			c.Blocks[min(at, n-1)].Txs = append(c.Blocks[min(at, n-1)].Txs, a)
+		}
+		nreq := rapid.IntRange(1, 3).Draw(t, "or_nreq")
+		for k := 0; k < nreq; k++ {
+			a := ck.Action{From: rapid.IntRange(0, ck.NAccounts-1).Draw(t, "or_from")}
+			ck.GenOracleRequest(t, &a)
+			put(i, a)
+		}
+		if rapid.IntRange(0, 3).Draw(t, "or_redesignate") == 0 {
+			put(i+rapid.IntRange(0, 2).Draw(t, "or_des_d"), ck.Action{Kind: "designate", From: rapid.IntRange(0, ck.NAccounts-1).Draw(t, "or_payer"), A: int(noderoles.Oracle), B: rapid.IntRange(1, 7).Draw(t, "or_keys")})
+		}
+		for k := rapid.IntRange(1, nreq).Draw(t, "or_nresp"); k > 0; k-- {
+			a := ck.Action{}
+			ck.GenOracleResponse(t, &a)
+			put(i+rapid.IntRange(1, 4).Draw(t, "or_resp_d"), a)
+		}
 	}
 	nr := rapid.IntRange(1, 3).Draw(t, "nreplicas")
 	disk := rapid.IntRange(0, 2).Draw(t, "disk") == 0
@@ -363,6 +389,9 @@ func checkCase(c Case, o *vt.Obs) error {
 	if len(backends) > 1 {
 		o.Label("two-backends")
 		interesting = true
+	}
+	for _, l := range b.FlowLabels() {
+		o.Label(l)
 	}
 	for k, v := range b.Rejected {
 		if v > 0 {
